@@ -151,7 +151,7 @@ impl Property for C03 {
         "C03"
     }
     fn rule(&self) -> String {
-        "random network whose unit set excludes >= 1 parameter valuation x closed plain or extended formula (context sets inside the unit set); every set returned by every entry point (8 plain + 4 extended) is checked point-wise on up to 32 invalid colours x all states x three settings of the extra variables, for inclusion in the unit set, for result/colour counts not exceeding the graph's, and (raw results) for a BDD support free of extra variables. Non-trivial: the explicit model built for an invalid colour satisfies the formula in some state, i.e. a missing confinement would be observable.".into()
+        "random network whose unit set excludes >= 1 parameter valuation x closed plain or extended formula (context sets inside the unit set); every set returned by every entry point (8 plain + 4 extended) is checked point-wise on up to 32 invalid colours x all states x three settings of the extra variables, for inclusion in the unit set, for result/colour counts not exceeding the graph's, and (raw results) for a BDD support free of extra variables. Deterministic stage: 12 / 15 networks in which a completely unknown function of arity 5-8 (32-256 parameter bits) has one or two constrained regulations (the unit set misses a fraction of 2^-16 .. 2^-128 of the valuations) x 20 / 70 formulae: every result is a subset of the unit set (exact BDD inclusion) and equal to the reference symbolic evaluator's. Non-trivial: the explicit model built for an invalid colour satisfies the formula in some state, i.e. a missing confinement would be observable.".into()
     }
     fn assumptions(&self) -> Vec<String> {
         vec![
@@ -174,6 +174,127 @@ impl Property for C03 {
         }
     }
     fn replay(&self, case: &Value) -> Verdict {
+        if case.get("scale").is_some() {
+            return match serde_json::from_value::<crate::scale::ScaleCase>(case.clone()) {
+                Ok(c) => check_wide(&c, std::time::Duration::from_secs(600)),
+                Err(_) => Verdict::Discard("unreadable-case"),
+            };
+        }
         replay_with(case, |case, net, fs| check(case, net, &fs[0]))
     }
+    fn extra_stages(&self, tier: Tier, seed: u64, stats: &mut Stats) -> Option<Failure> {
+        // unknown functions of arity 5-8 (32-256 parameter bits) with one constrained regulation: the
+        // constraints exclude a fraction of 2^-16 .. 2^-128 of the parametrisations
+        crate::scale::calibrate(seed, tier.pick(1000, 10_000), FCfg::PLAIN_WEAK, stats);
+        let arities: Vec<usize> = tier.pick(vec![5, 6, 7, 8], vec![4, 5, 6, 7, 8]);
+        let per = tier.pick(10, 60);
+        let mut cases = vec![];
+        for (j, k) in arities.iter().enumerate() {
+            for kind in 0..3 {
+                let aeon = wide_function_aeon(*k, kind);
+                let Ok(bn) = biodivine_lib_param_bn::BooleanNetwork::try_from(aeon.as_str()) else {
+                    harness_error(&format!("wide-function network not readable:\n{aeon}"));
+                };
+                let fixed = ["(~t)", "t", "(t | (~t))", "(AX t)", "(r1 => r1)", "(3{x}: (@{x}: (~t)))", "(AG (r1 | (~r1)))", "(EF (~t))", "((~t) AW r1)", "(V{x}: ((~t) | {x}))"];
+                let raws = crate::bundled::sample_stream(&crate::gen::raw_f_weighted(4, 10, 1), mix(seed, 0xc03 + (j * 3 + kind) as u64), per);
+                let mut texts: Vec<String> = fixed.iter().map(|s| s.to_string()).collect();
+                texts.extend(raws.iter().map(|r| crate::scale::scale_formula(r, &bn, FCfg::PLAIN_WEAK, 1, false).canon()));
+                for t in texts {
+                    let f = crate::refparse::parse(&t, false).expect("own rendering");
+                    cases.push(crate::scale::ScaleCase {
+                        scale: true,
+                        aeon: Some(aeon.clone()),
+                        model: None,
+                        k: f.quant_depth() as u16,
+                        formula: t,
+                        fast: false,
+                        context: Default::default(),
+                    });
+                }
+            }
+        }
+        let failure: std::sync::Mutex<Option<Failure>> = std::sync::Mutex::new(None);
+        let reports: std::sync::Mutex<Vec<CaseReport>> = std::sync::Mutex::new(vec![]);
+        let skipped = std::sync::atomic::AtomicUsize::new(0);
+        let next = std::sync::atomic::AtomicUsize::new(0);
+        let budget = std::time::Duration::from_secs(tier.pick(4, 30));
+        std::thread::scope(|scope| {
+            for _ in 0..16 {
+                scope.spawn(|| loop {
+                    let i = next.fetch_add(1, std::sync::atomic::Ordering::SeqCst);
+                    if i >= cases.len() || failure.lock().unwrap().is_some() {
+                        return;
+                    }
+                    match guard(|| check_wide(&cases[i], budget)) {
+                        Ok(Verdict::Fail(fl)) => {
+                            let fl = crate::scale::shrink_scale_with(fl, &|c| check_wide(c, budget));
+                            failure.lock().unwrap().get_or_insert(fl);
+                            return;
+                        }
+                        Ok(Verdict::Pass(mut rep)) => {
+                            rep.classes.push("wide-unknown-function".into());
+                            reports.lock().unwrap().push(rep)
+                        }
+                        Ok(Verdict::Discard(_)) => {
+                            skipped.fetch_add(1, std::sync::atomic::Ordering::SeqCst);
+                        }
+                        Err(p) => harness_error(&format!("panic in the harness on a wide-function network: {p}")),
+                    }
+                });
+            }
+        });
+        let reports = reports.into_inner().unwrap();
+        stats.stages.insert(
+            "wide-unknown-functions".into(),
+            serde_json::json!({"arities": arities, "networks": arities.len() * 3, "cases": reports.len(), "skipped_reference_budget": skipped.into_inner(), "nontrivial": reports.iter().filter(|r| r.nontrivial).count()}),
+        );
+        for r in reports {
+            stats.add(r);
+        }
+        failure.into_inner().unwrap()
+    }
+}
+
+/// `r1..rk` (frozen) regulate `t`, whose update function is completely unknown; kind 0: `r1` is
+/// essential, kind 1: `r1` is activating (monotone), kind 2: `r1` essential and `r2` inhibiting.
+/// Everything else unconstrained: the unit set misses only a tiny fraction of the 2^(2^k) colours.
+pub fn wide_function_aeon(k: usize, kind: usize) -> String {
+    let mut lines = vec![];
+    for i in 1..=k {
+        let arrow = match (kind, i) {
+            (0, 1) => "-?",
+            (1, 1) => "->?",
+            (2, 1) => "-?",
+            (2, 2) => "-|?",
+            _ => "-??",
+        };
+        lines.push(format!("r{i} {arrow} t"));
+        lines.push(format!("r{i} -> r{i}"));
+        lines.push(format!("$r{i}: r{i}"));
+    }
+    lines.join("\n")
+}
+
+/// Whole-set check on a network beyond the explicit evaluator: every result is inside the unit set
+/// (raw results in the graph's context, sanitised ones in the canonical context) and equal to the
+/// reference symbolic evaluator's result, which is confined to the unit set by construction.
+fn check_wide(case: &crate::scale::ScaleCase, budget: std::time::Duration) -> Verdict {
+    use biodivine_hctl_model_checker::model_checking::{model_check_formula, model_check_formula_dirty};
+    crate::scale::check_scale_with("C03", case, budget, std::sync::Arc::new(|graph: &SymbolicAsyncGraph, text: &str, reference: &biodivine_lib_param_bn::symbolic_async_graph::GraphColoredVertices| {
+        let unit = graph.unit_colored_vertices();
+        if !reference.is_subset(unit) {
+            harness_error("reference symbolic evaluator left the unit set");
+        }
+        let dirty = model_check_formula_dirty(text, graph).ok()?;
+        if !dirty.is_subset(unit) {
+            return Some(("outside-unit:model_check_formula_dirty".to_string(), format!("`{text}`: the raw result is not a subset of the unit set ({} elements outside)", dirty.minus(unit).exact_cardinality())));
+        }
+        let clean = model_check_formula(text, graph).ok()?;
+        let canonical = graph.symbolic_context().as_canonical_context();
+        let unit_c = canonical.transfer_from(unit.as_bdd(), graph.symbolic_context())?;
+        if !clean.as_bdd().and_not(&unit_c).is_false() {
+            return Some(("outside-unit:model_check_formula".to_string(), format!("`{text}`: the sanitised result is not a subset of the unit set")));
+        }
+        None
+    }))
 }
